@@ -1344,6 +1344,11 @@ static int parse_item(struct scanner_s *scanner, cif_container_tp *container, UC
                     case CIF_TRAVERSE_CONTINUE:
                         /* _copy_ the value into the CIF */
                         result = cif_container_set_value(container, name, value);
+                        if (result == CIF_INVALID_ITEMNAME) {
+                            /* error: invalid data name; recover, if so directed, by dropping the item */
+                            result = scanner->error_callback(CIF_INVALID_ITEMNAME, scanner->line, scanner->column,
+                                    NULL, 0, scanner->user_data);
+                        }
                         break;
                     case CIF_TRAVERSE_SKIP_CURRENT:
                         /* no need to set the skip depth because we don't go any deeper from here */
@@ -1433,9 +1438,19 @@ static int parse_loop(struct scanner_s *scanner, cif_container_tp *container) {
                                         break;
                                     case CIF_INVALID_ITEMNAME:
                                     case CIF_DUP_ITEMNAME:
-                                        /* these should not happen because the names were already validated */
-                                        result = CIF_INTERNAL_ERROR;
-                                        /* fall through */
+                                        /*
+                                         * error: an invalid data name, or one that is duplicated within this loop
+                                         * header (duplicates of names already in the container were caught earlier)
+                                         */
+                                        result = scanner->error_callback(result, scanner->line,
+                                                scanner->column - TVALUE_LENGTH(scanner), TVALUE_START(scanner), 0,
+                                                scanner->user_data);
+                                        if (result != CIF_OK) {
+                                            goto loop_body_end;
+                                        }
+                                        /* recover by parsing the loop body and dropping the whole loop */
+                                        scanner->skip_depth = 1;
+                                        break;
                                     default:
                                         goto loop_body_end;
                                 }
@@ -2028,11 +2043,22 @@ static int parse_table(struct scanner_s *scanner, cif_value_tp **tablep) {
         /* scan the value */
 
         /* obtain a value object into which to scan the value, to avoid copying the scanned value after the fact */
-        if ((key != NULL)
-                && (((result = cif_value_set_item_by_key(table, key, NULL)) != CIF_OK) 
-                        || ((result = cif_value_get_item_by_key(table, key, &value)) != CIF_OK))) {
-            free(key);
-            break;
+        if (key != NULL) {
+            result = cif_value_set_item_by_key(table, key, NULL);
+            if (result == CIF_INVALID_INDEX) {
+                /* error: the key contains characters that are not allowed in a table key */
+                result = scanner->error_callback(CIF_INVALID_INDEX, scanner->line, scanner->column, NULL, 0,
+                        scanner->user_data);
+                /* recover, if so directed, as for a null key: parse the value and drop it */
+                free(key);
+                key = NULL;
+                if (result != CIF_OK) {
+                    break;
+                }
+            } else if ((result != CIF_OK) || ((result = cif_value_get_item_by_key(table, key, &value)) != CIF_OK)) {
+                free(key);
+                break;
+            }
         }
 
         if ((result = next_token(scanner)) == CIF_OK) {
